@@ -8,7 +8,8 @@ VARIANTS = {
     'guard': [('g0 == %d', 'g0 == %d'), ('true', 'true'), ('1', None), ('1 && g0 == %d', 'g0 == %d'), ('g0 < %d && x >= 1', 'g0 < %d && x >= 1'),
               ('g0 > 2 && g1 < %d', 'g0 > 2 && g1 < %d')],
     'select': [('s%d : int[0,1]', 's%d : int[0,1]'), ('s%d : int[0,1], t%d : int[1,2]', 's%d : int[0,1], t%d : int[1,2]'),
-               ('s%d : int[0,1], t%d : int[1,2], u%d : int[0,3]', 's%d : int[0,1], t%d : int[1,2], u%d : int[0,3]')],
+               ('s%d : int[0,1], t%d : int[1,2], u%d : int[0,3]', 's%d : int[0,1], t%d : int[1,2], u%d : int[0,3]'),
+               ('s%d : int[0,32767]', 's%d : int[0,32767]'), ('s%d : int[-32768,5]', 's%d : int[-32768,5]'), ('s%d : int[1,32766], t%d : int[0,32767]', 's%d : int[1,32766], t%d : int[0,32767]')],
     'prob': [('%d', '%d'), ('1', None), ('%d', '%d')],
     'update': [('g1 = %d', 'g1 = %d'), ('g1 = %d, g2 = 0', 'g1 = %d, g2 = 0'), ('g2++', 'g2++')],
     'inv': [('x <= %d', 'x <= %d'), ('x <= %d && g0 < 5', '(x <= %d && g0 < 5)'), ('1', '1'), ('true', 'true')],
